@@ -13,6 +13,7 @@ import (
 	"math/rand"
 	"net/http"
 	"net/http/httptest"
+	"runtime"
 	"strings"
 	"time"
 
@@ -198,6 +199,38 @@ func checkC08(e *core.Env) {
 			e.Violate("inproc/unary/plain-type/response-lost", fmt.Sprintf("the handler's one response did not arrive: err=%v resp=%+v", err, *resp), w)
 		case mode == 2 && status.Code(err) != codes.NotFound:
 			e.Violate("inproc/unary/plain-type/error-lost", fmt.Sprintf("the handler failed with NotFound; the client saw %v", err), w)
+		}
+	})
+
+	// a unary handler whose goroutine ends without returning anything (runtime.Goexit, as t.FailNow does inside
+	// a handler under test): no response was produced, so the call does not succeed
+	e.Cases("unary-handler-goroutine-exits", e.N(6, 40), func(i int, r *rand.Rand) {
+		ch := &inprocgrpc.Channel{}
+		ch.RegisterService(&grpc.ServiceDesc{ServiceName: "verif.Exit", HandlerType: (*interface{})(nil),
+			Methods: []grpc.MethodDesc{{MethodName: "Get", Handler: func(srv interface{}, ctx context.Context, dec func(interface{}) error, _ grpc.UnaryServerInterceptor) (interface{}, error) {
+				req := new(tpb.Message)
+				dec(req)
+				if i%2 == 0 {
+					grpc.SetHeader(ctx, metadata.Pairs("k", "v"))
+				}
+				runtime.Goexit()
+				return nil, nil
+			}}}}, struct{}{})
+		resp := &tpb.Message{Payload: []byte("previous content")}
+		res := make(chan error, 1)
+		go func() {
+			res <- ch.Invoke(context.Background(), "/verif.Exit/Get", &tpb.Message{Payload: []byte("q")}, resp)
+		}()
+		var err error
+		select {
+		case err = <-res:
+		case <-time.After(watchdog):
+			e.Violate("inproc/unary/handler-goroutine-exited/never-returns", "the handler's goroutine ended without a result; Invoke never returned", nil)
+			return
+		}
+		e.Eval("unary-handler-goroutine-exits", true)
+		if err == nil {
+			e.Violate("inproc/unary/handler-goroutine-exited/success", fmt.Sprintf("the handler's goroutine ended without producing a response or an error; Invoke reported success (reply object: {%s})", msgDesc(resp)), nil)
 		}
 	})
 
